@@ -1097,6 +1097,11 @@ class Model:
             self._nodes, self._vars = deepcopy((self._nodes, self._vars))
 
         for node in self._nodes.values():
+            # reject the build before any node of another model is modified
+            if node.model:
+                raise RuntimeError(f"{repr(node)} can only be part of one model")
+
+        for node in self._nodes.values():
             node._clear_outputs()
             node._set_model(self)
 
